@@ -1164,3 +1164,42 @@ package ring
 
 //@ afunc NTTFriendlyPrimesGenerator.NextDownstreamPrimes
 //@   trusted opaque at the abstract level: a list of primes or an error
+
+// ---- RNS scalars (ring/scalar.go): the residues of v, modulus by modulus (property C15: the
+// ---- Lagrange coefficients of the threshold combiner are built from these) ----
+//@ func Ring.NewRNSScalarFromUInt64
+//@   property C15
+//@   requires 0 <= r.level && r.level < len(r.SubRings)
+//@   requires forall(k, 0, r.level+1, 0 < r.SubRings[k].Modulus)
+//@   ensures len(rns) == r.level+1
+//@   ensures forall(k, 0, r.level+1, rns[k] == v % r.SubRings[k].Modulus)
+//@   loop 0 invariant 0 <= i && i <= r.level+1 && len(rns) == r.level+1 && fresh(rns)
+//@   loop 0 invariant forall(k, 0, i, rns[k] == v % r.SubRings[k].Modulus)
+
+// ---- Ring.MultByMonomial: run-time safety for every k (no index out of range, no overflow) and frame ----
+//@ func Ring.N
+//@   requires 0 < len(r.SubRings)
+//@   ensures result == r.SubRings[0].N
+
+//@ func Ring.NewPoly
+//@   trusted nested allocation: assumed shape and freshness of the result
+//@   requires 0 < len(r.SubRings)
+//@   ensures len(result.Coeffs) == r.level+1
+//@   ensures forall(i, 0, r.level+1, len(result.Coeffs[i]) == r.SubRings[0].N && fresh(result.Coeffs[i]))
+
+//@ func Ring.MultByMonomial
+//@   property C01
+//@   requires ringwf(r) && r.level < len(p1.Coeffs) && r.level < len(p2.Coeffs)
+//@   let N = r.SubRings[0].N
+//@   requires 0 < N && N <= 1<<20
+//@   requires forall(i, 0, r.level+1, len(p1.Coeffs[i]) >= N && len(p2.Coeffs[i]) >= N)
+//@   loop 0 invariant 0 <= i && i <= r.level+1
+//@   loop 1 invariant 0 <= j && j <= N
+//@   loop 2 invariant 0 <= i && i <= r.level+1
+//@   loop 3 invariant 0 <= j && j <= N
+//@   loop 4 invariant 0 <= i && i <= r.level+1
+//@   loop 5 invariant 0 <= j && j <= N
+//@   loop 6 invariant 0 <= i && i <= r.level+1
+//@   loop 7 invariant 0 <= j && j <= shift
+//@   loop 8 invariant 0 <= i && i <= r.level+1
+//@   loop 9 invariant shift <= j && j <= N
